@@ -77,6 +77,37 @@ def info_of(xml):
     return xmlread.infoset(xmlread.parse(xml), QATTRS)
 
 
+def spec_infoset(spec, scope=None, default=None):
+    """The infoset a tree denotes, computed from its structure by the namespace rules (no serializer involved):
+    a prefix means the nearest enclosing declaration of it, an unprefixed element is in the nearest explicit
+    default namespace, an unprefixed attribute in none."""
+    scope = dict(scope or {"xml": "http://www.w3.org/XML/1998/namespace"})
+    for p_, u in spec["nsp"]:
+        scope[p_] = u
+    if spec.get("expns") is not None:
+        default = spec["expns"] or None
+    ns = scope.get(spec["pfx"]) if spec["pfx"] is not None else default
+    attrs = []
+    for ap, an, av in spec["attrs"]:
+        key = [scope.get(ap) if ap is not None else None, an]
+        if tuple(key) in QATTRS:
+            qp, _, local = av.partition(":")
+            attrs.append([key, {"qname": [scope.get(qp), local]}])
+        else:
+            attrs.append([key, av])
+    attrs.sort(key=lambda a: (a[0][0] or "", a[0][1]))
+    kids = [spec_infoset(k, scope, default) for k in spec["kids"]]
+    txt = spec["text"] or ""
+    if kids and not txt.strip():
+        txt = ""
+    return {"name": [ns, spec["name"]], "attrs": attrs, "text": txt, "children": kids}
+
+
+def no_layout(info):
+    kids = [no_layout(c) for c in info["children"]]
+    return dict(info, text="".join(info["text"].split()) if kids else info["text"], children=kids)
+
+
 def mask_no_ns(ref, other):
     """D23 classifier helper: replace the namespace of elements that are in no namespace in `ref`."""
     if len(ref["children"]) != len(other["children"]):
@@ -150,6 +181,22 @@ def tree_checks(ctx):
                 before = info_of(before_xml)
             except xmlread.XmlError as e:
                 continue
+            # the serializers themselves: what an XML processor reads from plain() / str() is what the tree denotes
+            want = spec_infoset(spec)
+            ctx.case(("serialize", common.digest(spec), passname), True)
+            for sname, text in (("plain", before_xml), ("str", root.str())):
+                try:
+                    read = info_of(text)
+                except xmlread.XmlError as e:
+                    read = "not well-formed: %s" % e
+                if sname == "str" and isinstance(read, dict):
+                    # the pretty serializer adds line breaks and indentation between the children of an element
+                    read, want_cmp = no_layout(read), no_layout(want)
+                else:
+                    want_cmp = want
+                if passname == "promote" and read != want_cmp:
+                    ctx.fail("the serialized tree does not denote the tree (a namespace declaration was lost or "
+                             "misplaced)", {"tree": before_dump[0], "serializer": sname}, text, repr(want)[:600])
             if passname == "promote":
                 root.promotePrefixes()
                 req = {"op": "prefix.promote", "tree": before_dump[0], "fixed": True}
@@ -217,6 +264,17 @@ def make_wsdl(form):
     return w.replace("<wsdl:definitions ", '<wsdl:definitions xmlns:o="urn:other" ', 1).encode()
 
 
+def typed_header():
+    """A caller-made header element that uses the conventional prefixes xs / xsi itself."""
+    from suds.sax.element import Element
+    e = Element("Token", ns=("h", "urn:hdr"))
+    e.addPrefix("xs", xmlread.XSD)
+    e.addPrefix("xsi", XSI)
+    e.set("xsi:type", "xs:string")
+    e.setText("tok")
+    return e
+
+
 def raw_element(k):
     from suds.sax.element import Element
     e = Element("Raw%d" % k, ns=("rw", "urn:raw:%d" % k))
@@ -268,7 +326,7 @@ def option_checks(ctx):
     from suds.sax.element import Element
     for form in ("qualified", "unqualified"):
         w = make_wsdl(form)
-        headers_variants = [(), ("hv",), (raw_element(9),)]
+        headers_variants = [(), ("hv",), (raw_element(9),), (typed_header(),)]
         base = wsdlkit.client(w, nosend=True)
         for ai, kw in enumerate(arg_sets(base, rng)):
             for hv in headers_variants:
